@@ -474,6 +474,11 @@ func runC06(c *CaseCtx) (res CaseResult) {
 		// value of a kind that cannot be nil (struct, int, string) or a typed nil pointer
 		zeroErrs = 1 + r.Intn(4)
 		res.obs("cases_with_zero_valued_error_values", 1)
+		for i := range s.Convs {
+			if s.Convs[i].HasErr && r.Intn(2) == 0 {
+				s.Convs[i].Fail = true
+			}
+		}
 	}
 	for k := 0; k < reps; k++ {
 		in, err := Instantiate(s, r)
